@@ -9,11 +9,14 @@ from .interp import parallel_explore
 from .harness import backup as B
 
 
-def scenario_files(kinds, classes, model, label='t', paths=None, sizes=None):
+def scenario_files(kinds, classes, model, label='t', paths=None, sizes=None, sym_meta=False):
     files = []
     for i, k in enumerate(kinds):
         p = (paths or B.PATHS)[i]
         mt = [(1000 if label == 't' else 2000) + i, 500 * i]
+        if sym_meta:
+            # solver-chosen modification times (harness/backup.py sym_time)
+            mt = [model.get('%smt%d_s' % (label, i), mt[0]), model.get('%smt%d_n' % (label, i), mt[1])]
         if k == 'F':
             # equal classes share one symbolic size (named after the first file of the class)
             first = classes.index(classes[i])
@@ -30,7 +33,8 @@ def scenario_files(kinds, classes, model, label='t', paths=None, sizes=None):
 def scenario_from(bad):
     case, model = bad['case'], bad.get('model') or {}
     fo = case.get('fixed_opts')
-    sc = {'kind': 'backup', 'files': scenario_files(case['kinds'], case['classes'], model, paths=case.get('paths'), sizes=case.get('sizes')),
+    sc = {'kind': 'backup', 'files': scenario_files(case['kinds'], case['classes'], model, paths=case.get('paths'), sizes=case.get('sizes'),
+                                                   sym_meta=case.get('sym_meta', False)),
           'options': {'max_entries_per_hunk': fo[2] if fo else model.get('oH', 1000), 'max_block_size': fo[0] if fo else model.get('oB', 1 << 20),
                       'small_file_cap': fo[1] if fo else model.get('oC', 1 << 20)},
           'follow_up': any('follow-up' in p for p in bad.get('problems', [])) or bool(bad.get('fired') and bad['fired'][3] in ('stop', 'empty_stop')),
@@ -141,7 +145,10 @@ def reproduced(kind, out, bad):
         # decided by an independent native reader of the archive directory (replay/src/formatscan.rs) or by what a restore shows
         return bool(out.get('format_problems')) or any(v.get('differences') or v.get('restore_errors') for v in versions)
     if kind == 'metadata-recorded-wrong':
-        return any(v.get('differences') or v.get('restore_errors') for v in versions)
+        # what a restore shows, or what an independent decoding of the newest band's index says about the recorded mtimes
+        want = {f['path']: f.get('mtime') for f in scenario_from(bad).get('files', []) if f.get('mtime')}
+        rec_wrong = any(r[0] in want and [r[1], r[2]] != list(want[r[0]]) for r in out.get('recorded_mtimes') or [])
+        return rec_wrong or any(v.get('differences') or v.get('restore_errors') for v in versions)
     return False
 
 
